@@ -10,7 +10,7 @@ import (
 func init() {
 	register(&Spec{
 		ID:          "C08",
-		Loads:       []LoadSpec{{Patterns: []string{"./htlcswitch", "./lnwallet", "./chanstate"}}},
+		Loads:       []LoadSpec{{Patterns: []string{"./htlcswitch", "./lnwallet", "./chanstate", "./channeldb"}}},
 		Explanation: "Decides that an incoming HTLC is settled only through the two link entry points, whose preimage originates from the settle packet of the outgoing HTLC (forwarded) or from an invoice-registry settle resolution (exit hop), and that the state machine accepts a settle only for a matching preimage; that a settle learned from the outgoing peer is forwarded only after the state machine verified it against the outgoing HTLC; that fail packets towards the incoming link are built only from forwarding packages (updates irrevocably committed on both commitments, produced by ReceiveRevocation or reloaded from disk); the forwarding filter of ReceiveRevocation; that the forwarding decision is durable before packets leave the link; and that acks and circuit closure ride in the commit diff.",
 		NotDecided: []string{
 			"balance conservation at quiescence", "goroutine scheduling, message drops and link restarts",
@@ -27,7 +27,7 @@ func runC08(r *an.Run) {
 	p := r.Prog
 
 	r.Obl("settle-preimage-origin", "WHO",
-		"LightningChannel.SettleHTLC has exactly two callers: processLocalUpdateFulfillHTLC, passing the PaymentPreimage of the switch packet's update_fulfill_htlc together with the packet's incoming HTLC id and references, and settleHTLC (exit hop), whose preimage comes from an invoice-registry HtlcSettleResolution; both settle entry points of the state machine require RHash == sha256(preimage)",
+		"LightningChannel.SettleHTLC has exactly two callers: processLocalUpdateFulfillHTLC, passing the PaymentPreimage of the switch packet's update_fulfill_htlc together with the packet's incoming HTLC id and references, and settleHTLC (exit hop), whose preimage comes from an invoice-registry HtlcSettleResolution; both settle entry points of the state machine require RHash == sha256(preimage) for the HTLC found under the given index in the log of the party that added it (SettleHTLC: remote log, ReceiveHTLCSettle: local log) and append, to the other log, a Settle entry that names that HTLC as its parent and carries that preimage; none of the values involved is overwritten between function entry and the call",
 		"an incoming HTLC settled with a preimage that was not learned downstream (or from the node's own invoice) leaves the forwarder out of pocket", 6,
 		func(o *an.Obl) {
 			w := r.Wide()
@@ -35,27 +35,38 @@ func runC08(r *an.Run) {
 				hs + "channelLink.processLocalUpdateFulfillHTLC": "forwarded settle: preimage carried by the switch packet from the outgoing link",
 				hs + "channelLink.settleHTLC":                    "exit hop: preimage from the invoice registry",
 			}, []string{hs + "channelLink.processLocalUpdateFulfillHTLC", hs + "channelLink.settleHTLC"})
+			settleID := lw + "LightningChannel.SettleHTLC"
 			f := p.Func(hs + "channelLink.processLocalUpdateFulfillHTLC")
-			for _, s := range f.Calls(an.CalleeNamed("SettleHTLC"), false) {
+			fs := f.Calls(an.CalleeIs(settleID), true)
+			if c08OneDirect(o, f, "call of SettleHTLC", fs) {
+				s := fs[0]
 				a := f.ArgCanon(s)
 				o.Site("%s args=%v", s.String(), a)
 				if a[0] != "$p2.PaymentPreimage" || a[1] != "$p1.incomingHTLCID" || a[2] != "$p1.sourceRef" || a[3] != "$p1.destRef" {
 					o.FailAt(f.ID+"#SettleHTLC-args", s.Where(), "the forwarded settle must use the packet's preimage, incoming HTLC id and references; got %v", a[:4])
 				}
+				// $p1 / $p2 name the values the caller handed in only if nothing
+				// overwrites them (or the fields read) on the way to the call
+				c08UnwrittenBefore(o, f, s, f.Params(false)[1:3], "PaymentPreimage", "incomingHTLCID", "sourceRef", "destRef")
 			}
 			g := p.Func(hs + "channelLink.settleHTLC")
-			for _, s := range g.Calls(an.CalleeNamed("SettleHTLC"), false) {
+			gs := g.Calls(an.CalleeIs(settleID), true)
+			if c08OneDirect(o, g, "call of SettleHTLC", gs) {
+				s := gs[0]
 				a := g.ArgCanon(s)
 				o.Site("%s args=%v", s.String(), a)
 				if a[0] != "$p0" || a[1] != "$p1" {
 					o.FailAt(g.ID+"#SettleHTLC-args", s.Where(), "the exit-hop settle must use its preimage and HTLC index parameters; got %v", a[:2])
 				}
+				c08UnwrittenBefore(o, g, s, g.Params(false)[0:2])
 			}
 			w.WhoMay(o, hs+"channelLink.settleHTLC", w.RefsTo(w.Method("htlcswitch", "channelLink", "settleHTLC"), false), map[string]string{
 				hs + "channelLink.processHtlcResolution": "invoice registry resolution",
 			}, []string{hs + "channelLink.processHtlcResolution"})
 			h := p.Func(hs + "channelLink.processHtlcResolution")
-			for _, s := range h.Calls(an.CalleeIs(hs+"channelLink.settleHTLC"), false) {
+			hsites := h.Calls(an.CalleeIs(hs+"channelLink.settleHTLC"), true)
+			if c08OneDirect(o, h, "call of settleHTLC", hsites) {
+				s := hsites[0]
 				a := h.ArgCanon(s)
 				o.Site("%s args=%v", s.String(), a)
 				if !strings.HasSuffix(a[0], ".Preimage") {
@@ -63,14 +74,50 @@ func runC08(r *an.Run) {
 				}
 				guarded(o, h, s, an.TypeCaseIs("invoices.HtlcSettleResolution", true, "resolution is an HtlcSettleResolution"))
 			}
-			for _, name := range []string{"SettleHTLC", "ReceiveHTLCSettle"} {
-				sf := p.Func(lw + "LightningChannel." + name)
-				app := sf.Calls(an.CalleeIs(lw+"updateLog.appendUpdate"), false)
-				if need(o, sf, "appendUpdate", app, 1) {
-					// the hash compared is the one of the HTLC found in the log under the
-					// given index, the preimage hashed is this call's
-					logHtlc := canonTerm(`^\$recv\.updateLogs\.(Local|Remote)\.lookupHtlc\(\$p1\)\.RHash$`)
-					guarded(o, sf, app[0], an.Cmp(logHtlc, an.EQ, an.CallTo("crypto/sha256.Sum256", nil, canonTerm(`^\$p0(\[:\])?$`)), "lookupHtlc(htlcIndex).RHash == sha256(preimage)"))
+			// SettleHTLC removes an HTLC the remote party added (remote log) by an
+			// entry in the local log; ReceiveHTLCSettle the mirror image
+			for _, ep := range []struct{ name, lookup, appendTo string }{
+				{"SettleHTLC", "Remote", "Local"},
+				{"ReceiveHTLCSettle", "Local", "Remote"},
+			} {
+				sf := p.Func(lw + "LightningChannel." + ep.name)
+				app := sf.Calls(an.CalleeIs(lw+"updateLog.appendUpdate"), true)
+				if !c08OneDirect(o, sf, "appendUpdate", app) {
+					continue
+				}
+				// the hash compared is the one of the HTLC found under the given
+				// index in the log of the party that added it, the preimage hashed
+				// is this call's
+				found := `$recv.updateLogs.` + ep.lookup + `.lookupHtlc($p1)`
+				logHtlc := canonTerm(`^` + regexpQuote(found) + `\.RHash$`)
+				guarded(o, sf, app[0], an.Cmp(logHtlc, an.EQ, an.CallTo("crypto/sha256.Sum256", nil, canonTerm(`^\$p0(\[:\])?$`)), found+".RHash == sha256(preimage)"))
+				c08UnwrittenBefore(o, sf, app[0], sf.Params(false)[0:2])
+				call := app[0].Node.(*ast.CallExpr)
+				if sel, ok := ast.Unparen(call.Fun).(*ast.SelectorExpr); ok {
+					if got, want := sf.Canon(sel.X), "$recv.updateLogs."+ep.appendTo; got != want {
+						o.FailAt(sf.ID+"#settle-entry-log", app[0].Where(), "%s appends the settle entry to %s, expected %s", ep.name, got, want)
+					}
+				}
+				// the entry appended settles that very HTLC with that very preimage
+				kv := c08LitFields(sf, call.Args[0])
+				if kv == nil {
+					o.FailAt(sf.ID+"#settle-entry-shape", app[0].Where(), "the settle entry appended by %s is not a uniquely defined paymentDescriptor literal: %s", ep.name, sf.Canon(call.Args[0]))
+					continue
+				}
+				o.Site("%s appends {ParentIndex: %s, RPreimage: %s, EntryType: %s}", ep.name, sf.Canon(kv["ParentIndex"]), sf.Canon(kv["RPreimage"]), sf.Canon(kv["EntryType"]))
+				if pi := sf.Canon(kv["ParentIndex"]); pi != "$p1" && pi != found+".HtlcIndex" {
+					o.FailAt(sf.ID+"#settle-entry-parent", app[0].Where(), "the settle entry of %s names %q as the HTLC it removes, expected the index whose hash was checked ($p1 or %s.HtlcIndex)", ep.name, pi, found)
+				}
+				if pre := sf.Canon(kv["RPreimage"]); pre != "$p0" {
+					o.FailAt(sf.ID+"#settle-entry-preimage", app[0].Where(), "the settle entry of %s carries the preimage %q, expected the verified one ($p0)", ep.name, pre)
+				}
+				if et := sf.Canon(kv["EntryType"]); et != "lnwallet.Settle" {
+					o.FailAt(sf.ID+"#settle-entry-type", app[0].Where(), "the entry appended by %s has type %q, expected Settle", ep.name, et)
+				}
+				if id, ok := ast.Unparen(call.Args[0]).(*ast.Ident); ok {
+					if ws := c08WritesOf(sf, c08ObjOf(sf.Info(), id), true); len(ws) > 0 {
+						o.FailAt(sf.ID+"#settle-entry-rewritten", app[0].Where(), "the settle entry of %s is written after its construction: %s", ep.name, ws[0])
+					}
 				}
 			}
 		})
@@ -218,7 +265,7 @@ func runC08(r *an.Run) {
 		})
 
 	r.Obl("response-acked-only-when-delivered-or-moot", "GUARD",
-		"a settle/fail reference of an outgoing channel's forwarding package is acknowledged (AckSettleFails, ackSettleFail, queued in pendingSettleFails) only: by the switch when the circuit is unknown (already fully closed and deleted), by the switch for a locally initiated payment after its result was stored, by the ack ticker flushing that queue, and by a link cleaning up a spurious response after acking the incoming add",
+		"a settle/fail reference of an outgoing channel's forwarding package is acknowledged (AckSettleFails, ackSettleFail, queued in pendingSettleFails) only: by the switch when the circuit is unknown (already fully closed and deleted), by the switch for a locally initiated payment after its result was stored, by the ack ticker flushing that queue, and by a link cleaning up a spurious response (only when SettleHTLC/FailHTLC just refused the response with ErrUnknownHtlcIndex) after acking the incoming add; the acknowledging functions are never taken as function values",
 		"acknowledging a response that merely sits in the incoming mailbox makes the restart skip its re-forwarding: the downstream settle is lost and the incoming HTLC dangles", 5,
 		func(o *an.Obl) {
 			n := 0
@@ -239,7 +286,9 @@ func runC08(r *an.Run) {
 						o.FailAt(f.ID+"#queues-ack", s.Where(), "%s queues a settle/fail acknowledgement", f.ID)
 						continue
 					}
-					guarded(o, f, s, an.Cmp(an.LocalNamed("err"), an.EQ, an.PkgVar("htlcswitch", "ErrUnknownCircuit"), "err == ErrUnknownCircuit"))
+					// the error compared is the very result of CloseCircuit for the
+					// packet's outgoing key (a reassigned err has no such form)
+					guarded(o, f, s, an.Cmp(canonTerm(`^\$recv\.circuits\.CloseCircuit\(\$p0\.outKey\(\)\)#1$`), an.EQ, an.PkgVar("htlcswitch", "ErrUnknownCircuit"), "CloseCircuit(pkt.outKey()) error == ErrUnknownCircuit"))
 					if c := f.Canon(as.Rhs[0]); !strings.HasSuffix(c, "*$p0.destRef)") {
 						o.FailAt(f.ID+"#queued-ref", s.Where(), "the queued reference is %s, expected the packet's destRef", c)
 					}
@@ -267,20 +316,54 @@ func runC08(r *an.Run) {
 			if n < 4 {
 				o.FailAt("AckSettleFails#sites", "", "expected at least 4 acknowledgement sites, found %d", n)
 			}
+			// the acknowledging functions are only ever called, never taken as a
+			// value (a call through a value is none of the sites above)
+			for _, f := range p.Funcs(false, "htlcswitch") {
+				if f.Lit != nil {
+					continue
+				}
+				for _, where := range c08ValuesTaken(f, "ackSettleFail", "AckSettleFails", "cleanupSpuriousResponse") {
+					o.FailAt(f.ID+"#ack-through-value", where, "%s takes a function value of an acknowledging function; its call is not classified", f.ID)
+				}
+			}
+			// the link cleans up (acks add and settle/fail reference) only for a
+			// response whose HTLC the state machine no longer knows
+			w := r.Wide()
+			w.WhoMay(o, hs+"channelLink.cleanupSpuriousResponse", w.RefsTo(w.Method("htlcswitch", "channelLink", "cleanupSpuriousResponse"), false), map[string]string{
+				hs + "channelLink.processLocalUpdateFulfillHTLC": "settle of an HTLC unknown to the state machine",
+				hs + "channelLink.processLocalUpdateFailHTLC":    "fail of an HTLC unknown to the state machine",
+			}, nil)
+			for fn, callee := range map[string]string{"processLocalUpdateFulfillHTLC": "SettleHTLC", "processLocalUpdateFailHTLC": "FailHTLC"} {
+				f := p.Func(hs + "channelLink." + fn)
+				cs := f.Calls(an.CalleeIs(hs+"channelLink.cleanupSpuriousResponse"), false)
+				rm := f.Calls(an.CalleeIs(lw+"LightningChannel."+callee), false)
+				if !needExactly(o, f, "cleanupSpuriousResponse", cs, 1) || !needExactly(o, f, callee, rm, 1) {
+					continue
+				}
+				if a := f.ArgCanon(cs[0]); a[0] != "$p1" {
+					o.FailAt(f.ID+"#cleans-other-packet", cs[0].Where(), "the packet cleaned up is %s, expected the one being processed", a[0])
+				}
+				guarded(o, f, cs[0], an.Truth(c08ErrorAsUnknownIndex, true, "ErrorAs[ErrUnknownHtlcIndex](err)"))
+				c08AfterFailureOf(o, f, rm, cs[0], callee)
+			}
 		})
 
 	r.Obl("packets-carry-their-forwarding-references", "ROLE",
-		"every switch packet built in htlcswitch carries the durable reference its handling depends on: an add built by the link from a forwarding package has sourceRef; a locally generated failure derived from an add packet (copying its incoming channel and HTLC id) copies that packet's sourceRef and circuit; a settle or fail re-created from a forwarding package's SettleFails has destRef; Switch.reforwardResponses scans every channel (FetchAllChannels, which includes channels waiting to close) that is not pending, and re-forwards the settle/fails of each of its forwarding packages",
+		"every switch packet built in htlcswitch carries the durable reference its handling depends on: an add built by the link from a forwarding package has sourceRef; a locally generated failure derived from an add packet (copying its incoming channel and HTLC id) copies that packet's sourceRef and circuit; a settle or fail re-created from a forwarding package's SettleFails has destRef; a settle or fail received from the outgoing link gets the incoming key, the circuit and the AddRef of its circuit (sourceRef) from Switch.closeCircuit before that returns the closed circuit, and no other statement overwrites a packet's sourceRef or destRef; the references are the real ones (sourceRef = &fwdPkg.SourceRef(position); destRef = the reference of the entry of the package whose SettleFails loop builds the packet, carrying that entry's message); Switch.reforwardResponses scans every channel (exactly the list FetchAllChannels returned, which includes channels waiting to close) that is not pending, loads the packages of that channel and hands all of them to reforwardSettleFails, which walks every package and every settle/fail of it",
 		"a response without its reference is committed without acknowledging the add (the add is replayed and forwarded again after a restart) or without the downstream reference (the response is retransmitted forever); responses of a closing channel that are not re-forwarded leave the upstream HTLC unsettled although downstream was paid", 12,
 		func(o *an.Obl) {
 			T := p.LookupType("htlcswitch", "htlcPacket")
+			isPacket := func(f *an.Func, e ast.Expr) bool {
+				n := an.NamedOf(f.Info().TypeOf(e))
+				return n != nil && n.Obj() == T.Obj()
+			}
 			n := 0
 			for _, cl := range p.CompositeLitsOf(T) {
 				if cl.Fn == nil {
 					continue
 				}
 				lit := cl.Node.(*ast.CompositeLit)
-				f := cl.Fn
+				f := c08FuncAt(cl.Fn, lit)
 				kv := map[string]ast.Expr{}
 				for _, el := range lit.Elts {
 					if k, ok := el.(*ast.KeyValueExpr); ok {
@@ -293,50 +376,137 @@ func runC08(r *an.Run) {
 					keys = append(keys, k)
 				}
 				sortStrings(keys)
-				o.Site("%s in %s: %v", cl.Where, f.ID, keys)
+				o.Site("%s in %s: %v sourceRef=%s destRef=%s", cl.Where, f.ID, keys, c08RefCanon(f, kv["sourceRef"]), c08RefCanon(f, kv["destRef"]))
 				htlcT := ""
 				if h, ok := kv["htlc"]; ok {
 					htlcT = an.TypeID(f.Info().TypeOf(h))
 				}
-				// derived from another packet?
-				if inc, ok := kv["incomingChanID"]; ok {
-					if sel, ok := inc.(*ast.SelectorExpr); ok && sel.Sel.Name == "incomingChanID" {
-						src := an.Text(sel.X)
-						for _, need := range []string{"sourceRef", "circuit", "incomingHTLCID"} {
-							v, has := kv[need]
-							if !has || an.Text(v) != src+"."+need {
-								o.FailAt(f.ID+"#derived-packet-"+need, cl.Where, "the packet derived from %s copies its incoming channel but not %s.%s", src, src, need)
+				// derived from another packet: its incoming identity is read from
+				// a value of type htlcPacket (field or inKey())
+				var src ast.Expr
+				for _, k := range []string{"incomingChanID", "incomingHTLCID"} {
+					if v, ok := kv[k]; ok {
+						ast.Inspect(v, func(m ast.Node) bool {
+							if e, ok := m.(ast.Expr); ok && src == nil && isPacket(f, e) {
+								src = e
 							}
+							return src == nil
+						})
+					}
+				}
+				if src != nil {
+					sc := f.Canon(src)
+					for need, alt := range map[string]string{"sourceRef": "", "circuit": "", "incomingHTLCID": ".inKey().HtlcID", "incomingChanID": ".inKey().ChanID"} {
+						got := "<absent>"
+						if v, has := kv[need]; has {
+							got = f.Canon(v)
+						}
+						if got != sc+"."+need && (alt == "" || got != sc+alt) {
+							o.FailAt(f.ID+"#derived-packet-"+need, cl.Where, "the packet derived from %s takes its incoming identity from it but has %s = %s, expected %s.%s", an.Text(src), need, got, an.Text(src), need)
 						}
 					}
 				}
 				if strings.HasSuffix(htlcT, "UpdateAddHTLC") && strings.Contains(f.ID, "channelLink.") {
-					if _, has := kv["sourceRef"]; !has {
-						o.FailAt(f.ID+"#add-without-sourceRef", cl.Where, "an add handed to the switch has no sourceRef")
+					// the reference of a forwarding package handed to this function
+					got := c08RefCanon(f, kv["sourceRef"])
+					if !reMatch(`^&\$p\d+\.SourceRef\(.+\)$`, got) {
+						o.FailAt(f.ID+"#add-without-sourceRef", cl.Where, "an add handed to the switch has sourceRef = %s, expected the address of fwdPkg.SourceRef(position)", got)
 					}
 				}
-				if d, has := kv["htlc"]; has && an.Text(d) == "msg" {
-					// re-created from a forwarding package entry
-					if _, hasRef := kv["destRef"]; !hasRef {
-						o.FailAt(f.ID+"#response-without-destRef", cl.Where, "a settle/fail re-created from a forwarding package has no destRef")
+				// re-created from a forwarding package entry: built inside the loop
+				// over a package's SettleFails
+				if hdr := enclosingLoopHeader(f.Root(), lit); strings.HasSuffix(hdr, ".SettleFails") {
+					pkg := regexpQuote(strings.TrimSuffix(hdr, ".SettleFails"))
+					pos := `uint16\(\$key\(` + pkg + `\.SettleFails\)\)`
+					got := c08RefCanon(f, kv["destRef"])
+					if !reMatch(`^&`+pkg+`\.DestRef\(`+pos+`\)$`, got) &&
+						!reMatch(`^&chan(state|neldb)\.SettleFailRef\{Source: `+pkg+`\.Source, Height: `+pkg+`\.Height, Index: `+pos+`\}$`, got) {
+						o.FailAt(f.ID+"#response-without-destRef", cl.Where, "a settle/fail re-created from an entry of %s has destRef = %s, expected the reference of that entry (DestRef(position) or {Source, Height, Index} of that package)", hdr, got)
 					}
+					if h, has := kv["htlc"]; !has || !reMatch(`^\$elem\(`+pkg+`\.SettleFails\)\.UpdateMsg`, c08SwitchSubject(f.Root(), h)) {
+						o.FailAt(f.ID+"#response-not-the-entry", cl.Where, "a settle/fail re-created inside the loop over %s does not carry that entry's message (htlc = %s)", hdr, an.Text(kv["htlc"]))
+					}
+				} else if _, has := kv["destRef"]; has {
+					o.FailAt(f.ID+"#destRef-outside-package-loop", cl.Where, "a packet with a destRef is built outside a loop over a forwarding package's SettleFails")
 				}
 			}
 			if n < 12 {
 				o.FailAt("htlcPacket#literals", "", "expected at least 12 packet constructions, found %d", n)
 			}
+			// the references are not taken away again
+			for _, f := range p.Funcs(false, "htlcswitch") {
+				for _, fld := range []string{"sourceRef", "destRef"} {
+					for _, s := range f.Assigns(an.Field(hs+"htlcPacket", fld, nil), false) {
+						as, ok := s.Node.(*ast.AssignStmt)
+						rhs := ""
+						if ok && len(as.Rhs) == 1 {
+							rhs = f.Canon(as.Rhs[0])
+						}
+						o.Site("%s", s.String())
+						if f.Root().ID == hs+"Switch.closeCircuit" && fld == "sourceRef" {
+							continue // checked below
+						}
+						o.FailAt(f.ID+"#"+fld+"-reassigned", s.Where(), "%s overwrites a packet's %s with %s", f.ID, fld, rhs)
+					}
+				}
+			}
+			// a response of the outgoing link receives the incoming side of its
+			// circuit when the switch closes it
+			cc := p.Func(hs + "Switch.closeCircuit")
+			ccs := cc.Calls(an.CalleeNamed("CloseCircuit"), false)
+			if needExactly(o, cc, "circuits.CloseCircuit", ccs, 1) {
+				circ := cc.Canon(ccs[0].Node.(*ast.CallExpr))
+				if a := cc.ArgCanon(ccs[0]); a[0] != "$p0.outKey()" {
+					o.FailAt(cc.ID+"#closes-other-circuit", ccs[0].Where(), "closeCircuit closes the circuit %s, expected the packet's outgoing key", a[0])
+				}
+				var rets []an.Site
+				for _, rt := range cc.Returns() {
+					if rs, ok := rt.Node.(*ast.ReturnStmt); ok && len(rs.Results) == 2 && cc.Canon(rs.Results[0]) == circ {
+						rets = append(rets, rt)
+					}
+				}
+				if need(o, cc, "return of the closed circuit", rets, 1) {
+					for fld, want := range map[string]string{
+						"sourceRef":      "&" + circ + ".AddRef",
+						"circuit":        circ,
+						"incomingChanID": circ + ".Incoming.ChanID",
+						"incomingHTLCID": circ + ".Incoming.HtlcID",
+					} {
+						var good []an.Site
+						for _, s := range cc.Assigns(an.Field(hs+"htlcPacket", fld, an.Param(0)), false) {
+							as, ok := s.Node.(*ast.AssignStmt)
+							if ok && len(as.Lhs) == 1 && len(as.Rhs) == 1 && cc.Canon(as.Rhs[0]) == want {
+								good = append(good, s)
+								continue
+							}
+							o.FailAt(cc.ID+"#"+fld+"-source", s.Where(), "closeCircuit sets the packet's %s by %s, expected %s", fld, s.String(), want)
+						}
+						before(o, cc, "pkt."+fld+" = "+want, good, "return of the closed circuit", rets)
+					}
+				}
+			}
 			f := p.Func(hs + "Switch.reforwardResponses")
 			fa := f.Calls(an.CalleeNamed("FetchAllChannels"), false)
-			if need(o, f, "cfg.FetchAllChannels", fa, 1) {
-				loopVisitsAll(o, f, `FetchAllChannels|openChannels`)
+			if needExactly(o, f, "cfg.FetchAllChannels", fa, 1) {
+				// the loop runs over exactly the list fetched
+				all := f.Canon(fa[0].Node.(*ast.CallExpr))
+				loopRe := "^" + regexpQuote(all) + "$"
+				loopVisitsAll(o, f, loopRe)
 				rs := f.Calls(an.CalleeIs(hs+"Switch.reforwardSettleFails"), false)
 				ld := f.Calls(an.CalleeIs(hs+"Switch.loadChannelFwdPkgs"), false)
-				if need(o, f, "reforwardSettleFails", rs, 1) && need(o, f, "loadChannelFwdPkgs", ld, 1) {
+				if needExactly(o, f, "reforwardSettleFails", rs, 1) && needExactly(o, f, "loadChannelFwdPkgs", ld, 1) {
 					mustPass(o, f, "loadChannelFwdPkgs", ld, an.OkErrNil, rs)
+					// every package loaded for this very channel is re-forwarded
+					if a := f.ArgCanon(ld[0]); a[0] != "$elem("+all+").ShortChanID()" {
+						o.FailAt(f.ID+"#loads-other-channel", ld[0].Where(), "the forwarding packages are loaded for %s, expected the short channel id of the channel of this iteration", a[0])
+					}
+					if a, want := f.ArgCanon(rs[0]), f.Canon(ld[0].Node.(*ast.CallExpr)); a[0] != want {
+						o.FailAt(f.ID+"#reforwards-other-packages", rs[0].Where(), "reforwardSettleFails is given %s, expected everything loadChannelFwdPkgs returned (%s)", a[0], want)
+					}
 					// every non-pending channel with a real id is processed
-					everyIterationOr(o, f, `FetchAllChannels|openChannels`, rs, an.AnyOf("pending channel or unassigned id",
-						an.Truth(an.FieldPath(nil, "IsPending"), true, ""),
-						an.Cmp(an.Any(), an.EQ, an.PkgVar("htlcswitch/hop", "Source"), "")), "reforwardSettleFails")
+					everyIterationOr(o, f, loopRe, rs, an.AnyOf("pending channel or unassigned id",
+						an.Truth(canonTerm(`^\$elem\(`+regexpQuote(all)+`\)\.IsPending$`), true, ""),
+						an.Cmp(canonTerm(`^\$elem\(`+regexpQuote(all)+`\)\.ShortChanID\(\)$`), an.EQ, an.PkgVar("htlcswitch/hop", "Source"), "")), "reforwardSettleFails")
 				}
 			}
 			for _, s := range f.AllCalls(false) {
@@ -344,7 +514,14 @@ func runC08(r *an.Run) {
 					o.FailAt(f.ID+"#open-only", s.Where(), "reforwardResponses scans only channels in the default state; responses of channels waiting to close must be re-forwarded too")
 				}
 			}
+			// reforwardSettleFails walks every package it is given and every
+			// settle/fail of each, and forwards what it collected
+			rf := p.Func(hs + "Switch.reforwardSettleFails")
+			notReassigned(o, rf, rf.Params(false)[0].Name())
+			loopVisitsAll(o, rf, `^\$p0$`)
+			loopVisitsAll(o, rf, `^\$elem\(\$p0\)\.SettleFails$`)
 		})
 
 	fwdPkgPositions(r)
+	c08Replay(r)
 }
